@@ -938,6 +938,19 @@ pub fn check_rhistory(h: &RHistory, obs: &mut Obs) -> Result<(), Fail> {
                     "op {}: the long-lived SvgBuilder (render #{}) gives {} bytes for QR #{} (size {}), a fresh SvgBuilder with the same setter calls gives {} bytes (history {})",
                     i, renders, s1.len(), k, q.size, fresh.len(), rhist_json(h)
                 );
+                // ... and a fresh SvgBuilder given only the FINAL value of every option, each once, in the documented
+                // order (last value wins; the order of setter calls on different options does not matter)
+                let canon = pc("SvgBuilder", || {
+                    let mut b = SvgBuilder::default();
+                    fold_svg(&prog).apply(&mut b);
+                    b.to_str(q)
+                })?;
+                ensure!(
+                    s1 == canon,
+                    "renderer_history_dependent:setter_order",
+                    "op {}: the long-lived SvgBuilder gives another document than a fresh SvgBuilder given only the final option values {} (first difference at byte {:?}; history {})",
+                    i, fold_svg(&prog).to_json(), s1.bytes().zip(canon.bytes()).position(|(a, b)| a != b), rhist_json(h)
+                );
                 if (hash_bytes(&h.qrs[*k].input) + renders) % 16 == 0 {
                     if cold_render_verdict(&h.qrs[*k], "svg", &prog, hash_bytes(s1.as_bytes()), &format!("op {}", i))? {
                         obs.label("cold_process_consulted:render");
@@ -988,7 +1001,7 @@ pub fn rhistory_strategy() -> BoxedStrategy<RHistory> {
         .prop_flat_map(|qrs| {
             let k = qrs.len();
             let op = prop_oneof![
-                4 => p_op().prop_map(ROp::Set),
+                6 => p_op().prop_map(ROp::Set),
                 5 => (0..k).prop_map(ROp::Svg),
                 2 => (0..k).prop_map(ROp::Png),
                 2 => (0..k).prop_map(ROp::SvgFile),
@@ -1252,11 +1265,11 @@ pub fn replay(_e: &Engine, case: &Value, obs: &mut Obs) -> Result<(), Fail> {
 fn svg_op() -> BoxedStrategy<SvgOp> {
     prop_oneof![
         2 => (0usize..=12).prop_map(SvgOp::Margin),
-        2 => any_color().prop_map(SvgOp::ModuleColor),
-        2 => any_color().prop_map(SvgOp::Background),
-        3 => (0usize..6, prop_oneof![Just(None), any_color().prop_map(Some)]).prop_map(|(s, c)| SvgOp::Shape(s, c)),
+        2 => palette_color().prop_map(SvgOp::ModuleColor),
+        2 => palette_color().prop_map(SvgOp::Background),
+        3 => (0usize..6, prop_oneof![Just(None), palette_color().prop_map(Some)]).prop_map(|(s, c)| SvgOp::Shape(s, c)),
         1 => prop_oneof![Just("logo.png".to_string()), Just("https://e.com/a?b=1&c=2".to_string()), Just("other.svg".to_string())].prop_map(SvgOp::Image),
-        1 => any_color().prop_map(SvgOp::ImageBgColor),
+        1 => palette_color().prop_map(SvgOp::ImageBgColor),
         1 => (0usize..3).prop_map(SvgOp::ImageBgShape),
         1 => (2u32..20).prop_map(|x| SvgOp::ImageSize(x as f64 / 2.0)),
         1 => (0u32..8).prop_map(|x| SvgOp::ImageGap(x as f64 / 2.0)),
@@ -1276,14 +1289,20 @@ fn png_safe(o: &SvgOp) -> bool {
 
 /// setter calls for the long-lived renderers: small margins (equal canvas widths for different versions are then
 /// frequent), image settings, colours, shapes
+fn palette_rgb() -> BoxedStrategy<ColorSpec> {
+    prop_oneof![2 => Just(ColorSpec::Rgb([255, 255, 255])), 2 => Just(ColorSpec::Rgb([0, 0, 0])), 1 => Just(ColorSpec::Rgb([200, 30, 30])), 2 => rgb_color()].boxed()
+}
+
 fn p_op() -> BoxedStrategy<SvgOp> {
     prop_oneof![
         4 => (0usize..=8).prop_map(SvgOp::Margin),
         2 => prop_oneof![Just("logo.png".to_string()), Just("data:image/png;base64,AAAA".to_string())].prop_map(SvgOp::Image),
         1 => (0usize..3).prop_map(SvgOp::ImageBgShape),
-        1 => rgb_color().prop_map(SvgOp::ImageBgColor),
-        1 => rgb_color().prop_map(SvgOp::ModuleColor),
-        1 => rgb_color().prop_map(SvgOp::Background),
+        // colours mostly from a small palette containing the defaults (white, black): a value given to one option often
+        // equals the value another option has at that moment
+        2 => palette_rgb().prop_map(SvgOp::ImageBgColor),
+        2 => palette_rgb().prop_map(SvgOp::ModuleColor),
+        2 => palette_rgb().prop_map(SvgOp::Background),
         1 => (0usize..6).prop_map(|s| SvgOp::Shape(s, None)),
         1 => (2u32..12).prop_map(|x| SvgOp::ImageSize(x as f64 / 2.0)),
     ]
